@@ -505,3 +505,139 @@ class H2Decoder:
         for sid, d in self.data.items():
             out += d
         return out
+
+
+class H2ServerPeer:
+    """HTTP/2 server behind a simulated stream.  Well-formed answers are produced with an `h2`
+    server-side connection (HPACK state, frame layout); what the client sends is ALSO parsed by
+    the independent H2Decoder for judging.  `plan(req)` -> response spec:
+        status, headers, body, frames (DATA frame sizes), interim [(status, headers)],
+        rst_after (send RST_STREAM after this many DATA frames), no_end (never end the stream)
+    The answer to a request is emitted only when the request is complete (END_STREAM), as one
+    blob whose internal offsets are recorded in `self.layout` (for segmentation cases)."""
+
+    def __init__(self, plan=None, settings=None, auto=True):
+        import h2.config
+        import h2.connection
+
+        self.plan = plan or (lambda req: {"status": 200, "headers": [(b"x-tok", req.token or b"?")], "body": b"body-of-" + (req.token or b"?")})
+        self.conn = h2.connection.H2Connection(h2.config.H2Configuration(client_side=False, validate_inbound_headers=False, header_encoding=None))
+        if settings:
+            self.conn.local_settings.update(settings)
+        self.started = False
+        self.dec = H2Decoder()
+        self.closed = False
+        self.requests = []  # ParsedRequest per completed request
+        self.heads = []
+        self.by_stream = {}
+        self.layout = {}  # stream id -> dict(offsets)
+        self.sent = 0
+        self.raw_in = b""
+        self.errors = []
+        self.auto = auto
+        self.open_streams = set()
+        self.max_open = 0
+        self.events_log = []
+
+    def on_tls(self, sni, offer):
+        return "h2" if "h2" in offer else None
+
+    def _flush(self):
+        d = self.conn.data_to_send()
+        self.sent += len(d)
+        return d
+
+    def feed(self, data):
+        import h2.events
+        import h2.exceptions
+
+        self.raw_in += data
+        self.dec.feed(data)
+        out = b""
+        if not self.started:
+            self.started = True
+            self.conn.initiate_connection()
+            out += self._flush()
+        try:
+            events = self.conn.receive_data(data)
+        except h2.exceptions.ProtocolError as e:
+            self.errors.append(repr(e))
+            out += self._flush()
+            self.closed = True
+            return out
+        for ev in events:
+            self.events_log.append(type(ev).__name__)
+            if isinstance(ev, h2.events.RequestReceived):
+                req = ParsedRequest()
+                hs = [(bytes(k), bytes(v)) for k, v in ev.headers]
+                d = dict(hs)
+                req.method = d.get(b":method")
+                req.target = d.get(b":path")
+                req.headers = hs
+                req.framing = "h2"
+                req.stream_id = ev.stream_id
+                self.by_stream[ev.stream_id] = req
+                self.heads.append(req)
+                self.open_streams.add(ev.stream_id)
+                self.max_open = max(self.max_open, len(self.open_streams))
+            elif isinstance(ev, h2.events.DataReceived):
+                r = self.by_stream.get(ev.stream_id)
+                if r is not None:
+                    r.body += ev.data
+                self.conn.acknowledge_received_data(ev.flow_controlled_length, ev.stream_id)
+            elif isinstance(ev, h2.events.StreamEnded):
+                r = self.by_stream.get(ev.stream_id)
+                if r is not None:
+                    r.complete = True
+                    self.requests.append(r)
+                    if self.auto:
+                        out += self._flush()
+                        out += self.respond(ev.stream_id)
+            elif isinstance(ev, h2.events.StreamReset):
+                self.open_streams.discard(ev.stream_id)
+        out += self._flush()
+        return out
+
+    def respond(self, sid, spec=None):
+        """Emit the planned response for stream `sid`; records frame end offsets."""
+        req = self.by_stream[sid]
+        spec = spec if spec is not None else self.plan(req)
+        if spec is None:
+            return b""
+        out = b""
+        base = self.sent
+        lay = {"start": base, "data_ends": [], "interim_ends": []}
+        for st, hs in spec.get("interim", []):
+            self.conn.send_headers(sid, [(b":status", b"%d" % st)] + list(hs))
+            out += self._flush()
+            lay["interim_ends"].append(self.sent)
+        body = spec.get("body", b"")
+        frames = spec.get("frames")
+        if frames is None:
+            frames = [len(body)] if body else []
+        no_body = not frames and not spec.get("no_end")
+        self.conn.send_headers(sid, [(b":status", b"%d" % spec.get("status", 200))] + list(spec.get("headers", [])), end_stream=no_body)
+        out += self._flush()
+        lay["head_end"] = self.sent
+        pos = 0
+        rst_after = spec.get("rst_after")
+        for i, n in enumerate(frames):
+            if rst_after is not None and i >= rst_after:
+                break
+            last = i == len(frames) - 1 and not spec.get("no_end") and rst_after is None
+            self.conn.send_data(sid, body[pos : pos + n], end_stream=last)
+            pos += n
+            out += self._flush()
+            lay["data_ends"].append((n, self.sent))
+        if rst_after is not None:
+            self.conn.reset_stream(sid, error_code=spec.get("rst_code", 2))
+            out += self._flush()
+            lay["rst_end"] = self.sent
+        lay["end"] = self.sent
+        self.layout[sid] = lay
+        if not spec.get("no_end") and rst_after is None or rst_after is not None:
+            self.open_streams.discard(sid)
+        return out
+
+    def exchange_clean(self):
+        return True
